@@ -221,7 +221,7 @@ func nativeReplay(repo, harnessDir string, hdir string, c *CexFile, cexPath stri
 	ovb, _ := json.Marshal(map[string]interface{}{"Replace": repl})
 	ovf := filepath.Join(tmp, "overlay.json")
 	os.WriteFile(ovf, ovb, 0o644)
-	cmd := exec.Command("timeout", "300", "go", "test", "-v", "-tags", "verif", "-vet=off", "-count=1", "-run", "^TestVFReplay$", "-overlay", ovf, pkgOfHarnessDir[hdir])
+	cmd := exec.Command("timeout", "120", "go", "test", "-v", "-tags", "verif", "-vet=off", "-count=1", "-run", "^TestVFReplay$", "-overlay", ovf, pkgOfHarnessDir[hdir])
 	cmd.Dir = repo
 	cmd.Env = append(os.Environ(), "GOFLAGS=-mod=mod", "GOPROXY=off", "GOSUMDB=off", "GOTOOLCHAIN=local",
 		"VF_REPLAY="+cexPath, "VF_PARAMS="+paramStr(c.Params))
@@ -244,6 +244,9 @@ func nativeReplay(repo, harnessDir string, hdir string, c *CexFile, cexPath stri
 }
 
 func expectedOutcome(v *Violation) string {
+	if v.Label == "main-blocked" {
+		return "?" // the harness blocks for ever: a native run has no outcome line
+	}
 	switch v.Kind {
 	case "assert", "quiescence":
 		return "ASSERT " + v.Label
@@ -264,6 +267,12 @@ func confirmCex(p *Program, repo, harnessDir string, c *CexFile, path string) (b
 	if c.Conc {
 		return true, msg + " (concurrent scenario: schedule replayed in the engine on the real SSA; no native schedule replay)"
 	}
+	want := expectedOutcome(c.Violation)
+	if want == "?" {
+		// e.g. a harness that blocks for ever: there is no native outcome line to compare with (the
+		// native run would only sit in its timeout); the engine replay on the real SSA is the confirmation
+		return true, msg + " (violation kind " + c.Violation.Kind + ": confirmed by engine replay only)"
+	}
 	hdir := harnessDirOf(p, c.Harness)
 	got, txt, err := nativeReplay(repo, harnessDir, hdir, c, path)
 	if err != nil {
@@ -273,7 +282,6 @@ func confirmCex(p *Program, repo, harnessDir string, c *CexFile, path string) (b
 		}
 		return false, "native replay failed: " + err.Error() + "\n" + tail
 	}
-	want := expectedOutcome(c.Violation)
 	if strings.HasPrefix(got, want) {
 		return true, msg + "; native replay: " + got
 	}
@@ -364,6 +372,7 @@ func cmdCheck(args []string) {
 	nstale, ndecided := 0, 0
 	knownHit := map[string]bool{}
 	confirmed := map[string]string{}
+	tried := map[string]bool{}
 	cexDir := filepath.Join(outDir(), "out", "cex", *prop)
 	os.MkdirAll(cexDir, 0o755)
 	for i, r := range results {
@@ -413,10 +422,11 @@ func cmdCheck(args []string) {
 				}
 				continue
 			}
-			if confirmed[v.Sig] != "" {
-				// same signature already confirmed from another job of this property
+			if confirmed[v.Sig] != "" || tried[v.Sig] {
+				// same signature already confirmed (or already found unconfirmable) from another job of this property
 				continue
 			}
+			tried[v.Sig] = true
 			nviol++
 			c := &CexFile{Property: *prop, Harness: j.H, Params: j.P, Conc: j.Conc, Race: j.Race, Env: j.Env, Violation: v, Nondet: v.Nondet, Trail: v.Trail}
 			path := filepath.Join(cexDir, fmt.Sprintf("%s-%s-%d.json", j.H, strings.ReplaceAll(paramStr(j.P), ",", "_"), vi))
